@@ -2,6 +2,7 @@
 import importlib
 
 PROPS = {
+    "C09": "sim.props.c09",
     "C33": "sim.props.c33",
 }
 
